@@ -1,5 +1,6 @@
 import Sop.Lemmas.OccSerial
 import Sop.Model.OccFresh
+import Sop.Props.C02
 /-!
 # C05 — a unique-key store never ends up with two items under the same key (Model L)
 
@@ -280,6 +281,27 @@ theorem same_page_one_wins :
 theorem goodUN_onePage : GoodUN [1000, 2000] onePage rr := by decide
 
 theorem not_goodUN_twoPages : ¬ GoodUN [1000, 2000] twoPages rr := by decide
+
+/-- the whole of `C05_unique_checked` applied to a concrete racing run: every hypothesis is discharged (the two
+    decidable checks by evaluation), so the theorem — not an evaluation of the final state — gives uniqueness there -/
+theorem onePage_init : Init onePage :=
+  ⟨rfl, fun i => by
+    by_cases h0 : i = 0
+    · subst h0; exact Or.inl rfl
+    · by_cases h1 : i = 1
+      · subst h1; exact Or.inl rfl
+      · exact Or.inr (by simp [onePage, twoPages, h0, h1, absent])⟩
+
+theorem onePage_quiet : Quiet 2 onePage := fun i hi => by
+  have h0 : i ≠ 0 := by omega
+  have h1 : i ≠ 1 := by omega
+  simp [onePage, twoPages, h0, h1, absent]
+
+theorem onePage_goodN : GoodN 2 onePage rr := by decide
+
+theorem onePage_unique : NoDupKeys (run onePage rr).db :=
+  C05_unique_checked [1000, 2000] onePage rr onePage_init (good_of rr onePage onePage_quiet onePage_goodN)
+    (fun _ _ => rfl) goodUN_onePage (fun i j e e' h => by cases h)
 
 /-- non-vacuity of `WsFresh`: replace the holder of key 20 (item 7) by a new item and update item 8 -/
 example : WsFresh (fun i => if i = 7 then some ⟨20, 1, 0⟩ else if i = 8 then some ⟨30, 1, 0⟩ else none)
